@@ -62,11 +62,13 @@ class C05Machine(Machine):
 
     @classmethod
     def draw_config(cls, rng, tier):
+        deep = tier == "thorough" and rng.random() < 0.3
         cfg = {
-            "max_ops": rng.randint(3, 14),
+            "max_ops": rng.randint(3, 14) if not deep else rng.randint(15, 32),
+            "deep": deep,
             "delimiter": rng.choice(tokens.DELIMITERS),
-            "curie_pool": tokens.pick_pool(rng, tokens.CURIE_PREFIXES, tokens.RARE_CURIE_PREFIXES, 3, 10),
-            "uri_pool": tokens.pick_pool(rng, tokens.URI_PREFIXES, tokens.RARE_URI_PREFIXES, 3, 10),
+            "curie_pool": tokens.pick_pool(rng, tokens.CURIE_PREFIXES, tokens.RARE_CURIE_PREFIXES, 3, 10 if not deep else 16),
+            "uri_pool": tokens.pick_pool(rng, tokens.URI_PREFIXES, tokens.RARE_URI_PREFIXES, 3, 10 if not deep else 16),
             "id_pool": rng.sample(tokens.IDENTIFIERS, 3),
             "p_collide": round(rng.uniform(0.3, 0.95), 3),
             "p_merge": round(rng.uniform(0.2, 0.9), 3),
